@@ -157,6 +157,7 @@ class Expander:
         self.inlined: list = []  # (caller qual, callee qual, mode)
         self.failed: list = []   # (caller qual, callee qual): unknown helper whose call could not be expanded
         self._attr_types_cache = {}
+        self._closures, self._closures_on = {}, False
 
     # -- callee resolution ------------------------------------------------------------------------------------------
     def _attr_types(self, cq):
@@ -188,6 +189,9 @@ class Expander:
             ast.fix_missing_locations(fn)
             return f"<lambda>@{getattr(f, 'lineno', 0)}:{getattr(f, 'col_offset', 0)}:{id(f)}", fn, mi, None
         try:
+            if isinstance(f, ast.Name) and self._closures_on and f.id in self._closures:
+                cfn, cq_ = self._closures[f.id]
+                return cq_, cfn, mi, None
             if isinstance(f, ast.Name):
                 q = self.repo.resolve_name(mi, f.id)
                 if q and q.startswith(self.repo.PKG + ".") and self.repo.has(q):
@@ -383,7 +387,69 @@ class Expander:
                 changed = True
         return changed
 
+    def _local_closures(self, fn, qual):
+        """Nested defs of fn that are new (not in the frozen surface), defined once and never rebound: direct calls to them are
+        analysed as if their body stood at the call (free variables are those of the enclosing function at the time of the call)."""
+        out = {}
+        stores = {}
+        for n in ast.walk(fn):
+            if isinstance(n, ast.Name) and isinstance(n.ctx, (ast.Store, ast.Del)):
+                stores[n.id] = stores.get(n.id, 0) + 1
+        params = {a.arg for a in fn.args.posonlyargs + fn.args.args + fn.args.kwonlyargs}
+
+        def scan(stmts):
+            for st in stmts:
+                if isinstance(st, ast.FunctionDef):
+                    q = f"{qual}.<locals>.{st.name}"
+                    if q not in self.known and not st.decorator_list and st.name not in stores and st.name not in params:
+                        out[st.name] = (st, q) if st.name not in out else None
+                    continue
+                if isinstance(st, ast.ClassDef):
+                    continue
+                for f in ("body", "orelse", "finalbody"):
+                    v = getattr(st, f, None)
+                    if isinstance(v, list) and v and isinstance(v[0], ast.stmt):
+                        scan(v)
+                for h in getattr(st, "handlers", []) or []:
+                    scan(h.body)
+        scan(fn.body)
+        return {k: v for k, v in out.items() if v is not None}
+
+    def _drop_inlined_closures(self, fn):
+        """A closure whose every use was a direct call that has been expanded is no longer referenced: its definition is removed so that
+        scanning rules see its statements once (at the call), not twice."""
+        used = {n.id for n in ast.walk(fn) if isinstance(n, ast.Name) and isinstance(n.ctx, ast.Load)}
+
+        def prune(stmts):
+            keep = []
+            for st in stmts:
+                if isinstance(st, ast.FunctionDef) and st.name in self._closures and self._closures[st.name][0] is st and st.name not in used \
+                        and any(c[1] == self._closures[st.name][1] for c in self.inlined):
+                    continue
+                for f in ("body", "orelse", "finalbody"):
+                    v = getattr(st, f, None)
+                    if isinstance(v, list) and v and isinstance(v[0], ast.stmt) and not isinstance(st, (ast.FunctionDef, ast.ClassDef)):
+                        setattr(st, f, prune(v) or [ast.copy_location(ast.Pass(), st)])
+                keep.append(st)
+            return keep
+        fn.body = prune(fn.body) or [ast.copy_location(ast.Pass(), fn)]
+
     def expand_function(self, fn: ast.FunctionDef, mi, cls_qual, qual, stack=()):
+        self._closures, self._closures_on = self._local_closures(fn, qual), True
+        try:
+            changed = self._expand_function(fn, mi, cls_qual, qual, stack)
+            if changed and self._closures:
+                self._drop_inlined_closures(fn)
+        finally:
+            self._closures, self._closures_on = {}, False
+        if changed:
+            ast.fix_missing_locations(fn)
+            for parent in ast.walk(fn):
+                for child in ast.iter_child_nodes(parent):
+                    child._parent = parent
+        return changed
+
+    def _expand_function(self, fn: ast.FunctionDef, mi, cls_qual, qual, stack=()):
         changed = self.normalize_star_args(fn)
         changed |= self.unroll_unpacked_comprehensions(fn)
         fn.body, ch = self._block(fn.body, mi, cls_qual, qual, stack + (qual,), 0)
@@ -563,19 +629,24 @@ class Expander:
                 setattr(s, f, [R().visit(x) if isinstance(x, ast.AST) and not isinstance(x, ast.stmt) else x for x in v])
 
     def _inline_statements(self, call, cq, cfn, cmi, self_expr, mi, cls_qual, qual, stack, assign_to=None):
-        if _contains(cfn, (ast.Yield, ast.YieldFrom, ast.Await, ast.Global, ast.Nonlocal)) or any(isinstance(x, (ast.FunctionDef, ast.ClassDef, ast.Lambda)) for x in ast.walk(cfn) if x is not cfn):
+        is_closure = "<locals>" in cq
+        if _contains(cfn, (ast.Yield, ast.YieldFrom, ast.Await, ast.Global)) or (not is_closure and _contains(cfn, ast.Nonlocal)) \
+                or any(isinstance(x, (ast.FunctionDef, ast.ClassDef, ast.Lambda)) for x in ast.walk(cfn) if x is not cfn):
             raise NotInlinable("generator / nested definition")
         binding = self.bind(cfn, call, self_expr, self_expr is not None or self._is_static(cfn))
+        shared = {nm for x in ast.walk(cfn) if isinstance(x, ast.Nonlocal) for nm in x.names}
         self.counter += 1
         sfx = f"__i{self.counter}"
-        body = clone([x for x in cfn.body if not (isinstance(x, ast.Expr) and isinstance(x.value, ast.Constant))])
+        body = clone([x for x in cfn.body if not (isinstance(x, ast.Expr) and isinstance(x.value, ast.Constant)) and not isinstance(x, ast.Nonlocal)])
+        if _contains(ast.Module(body=body, type_ignores=[]), ast.Nonlocal):
+            raise NotInlinable("nonlocal below the top level")
         # callee-local names (stored anywhere in the body) and parameters get fresh names
         locals_ = set(binding)
         for x in body:
             for n in ast.walk(x):
                 if isinstance(n, ast.Name) and isinstance(n.ctx, (ast.Store, ast.Del)):
                     locals_.add(n.id)
-        names = {n: f"{n}{sfx}" for n in locals_ if n not in ("self", "cls")}
+        names = {n: f"{n}{sfx}" for n in locals_ if n not in ("self", "cls") and n not in shared}
         res = f"ret{sfx}"
         # parameters the callee never assigns and whose argument is a plain name / attribute chain / constant are substituted directly
         stored_in_callee = {n.id for x in body for n in ast.walk(x) if isinstance(n, ast.Name) and isinstance(n.ctx, (ast.Store, ast.Del))}
@@ -610,7 +681,12 @@ class Expander:
         owner_cls = cq.rsplit(".", 1)[0] if self_expr is not None else None
         if owner_cls is not None and not self.repo.has(owner_cls):
             owner_cls = None
-        stm, _ = self._block(stm, cmi, owner_cls if owner_cls else cls_qual, qual, stack + (cq,), 0)
+        was_on = self._closures_on
+        self._closures_on = was_on and is_closure
+        try:
+            stm, _ = self._block(stm, cmi, owner_cls if owner_cls else cls_qual, qual, stack + (cq,), 0)
+        finally:
+            self._closures_on = was_on
         if cmi is not mi:
             self._import_names(stm, cmi, mi)
         return stm, res
@@ -649,7 +725,7 @@ def expand_repo(repo, known: set | None = None):
 
 
 def write_known(repo, path: str = KNOWN_FILE):
-    names = sorted(q for q, fn, mi in repo.all_functions() if "<locals>" not in q)
+    names = sorted(q for q, fn, mi in repo.all_functions())
     with open(path, "w", encoding="utf-8") as fh:
         json.dump({"comment": "qualified names of all functions / methods of rl_blox when the checker was built: calls to repo functions outside this list are analysed as if inlined",
                    "names": names}, fh, indent=0)
